@@ -238,6 +238,13 @@ def field_mutants(node: Any) -> list[tuple[str, Any]]:
                 variants.append((f"{sub}+key", {**dict(mp), k0 + "_zz": mp[k0]}))
             if len(keys) >= 2:
                 variants.append((f"{sub}-key", {k: mp[k] for k in keys[:-1]}))
+            # one key RENAMED, values and the order of the keys unchanged (a hash or a
+            # comparison that lists the values in key order without the keys misses it)
+            for kr in (keys[0], keys[-1]):
+                if isinstance(kr, str) and kr + "_q" not in mp:
+                    variants.append((f"{sub}~key", {(k + "_q" if k == kr else k): mp[k]
+                                                    for k in keys}))
+                    break
             for vname, nm in variants:
                 try:
                     out.append((vname, reflect.replace_field(node, **{name: setter(nm)})))
